@@ -32,6 +32,17 @@ Theorem C05_frame_header :
 Proof. exact (conj Frame_roundtrip (conj decode_Header_total (conj decode_Frame_never_panics Frame_stable))). Qed.
 Print Assumptions C05_frame_header.
 
+(** FrameReader.Read, the entry point every transport feeds: it never panics,
+    reads every frame the buffer decoder accepts identically, and reserves at
+    most MaxPayloadSize bytes for the payload whatever the header announces
+    (the limit is checked before make()). *)
+Theorem C05_frame_reader :
+  (forall b, decode_FrameRead b <> DPanic) /\
+  (forall b f, decode_Frame b = DOk f -> decode_FrameRead b = DOk f) /\
+  (forall b, frame_read_alloc b <= max_payload).
+Proof. exact (conj frame_read_never_panics (conj frame_read_agrees frame_read_alloc_bounded)). Qed.
+Print Assumptions C05_frame_reader.
+
 (** Messages whose Go codec is a plain sequence of fields (PeerHello;
     StreamOpen/UDPOpen; StreamOpenAck/UDPOpenAck; StreamReset; Keepalive;
     UDPClose/ICMPClose; path; ControlRequest; UDPDatagram; ICMPOpen;
